@@ -287,6 +287,8 @@ def run(ctx):
     ctx.ob("C07.d", con.qual, se_ok, "_connect sets _connection_expiration = now + max_connection_lifetime when configured", func=con.qual, file=file,
            construct="self._connection_expiration = ...", detail={"stored": show(setexp)[:120] if setexp else None},
            fail="_connect does not arm the connection lifetime")
+    from ..shared import check as shared_check
+    shared_check(ctx, "C07.b", [prog.cls(V2), prog.cls(V3), prog.cls(LAN)], "the protocol and connection classes")
     ctx.require_min("data_writes", 1)
     ctx.require_min("handshake_writes", 1)
     ctx.require_min("session_attrs", 3)
